@@ -247,12 +247,27 @@ class BuiltinMixin:
             fr = FuncRef(c.module.relpath, f'{c.qualname}.{name}', m, cls=c)
             yield from self.call_func(fr, inst, args, kw, st, exits, e)
             return
+        if isinstance(ty, TPy) and ty.kind == 'regex':
+            # compiled pattern (text read from the real module): .match(s) is a prefix match, .fullmatch(s) a full one
+            pat, flags = recv.t
+            if name not in ('match', 'fullmatch'):
+                raise Unsupported(f'regex method {name}')
+            yield st, V(TPy('match'), self.regex_match_term(pat, flags, args[0].t, name))
+            return
         if isinstance(ty, TObj):
             yield from self.call_external(f'<{ty.name}>.{name}', [recv] + list(args), kw, st, exits, e)
             return
         if isinstance(ty, TPy) and ty.kind == 'emptydict':
             raise Unsupported('method on untyped {}: declare the local in the sidecar')
         raise Unsupported(f'method {name} on {ty}')
+
+    def regex_match_term(self, pat, flags, s_term, kind='match'):
+        from .regex import to_z3, end_anchored
+        flags = flags & ~32                   # re.UNICODE is the default for str patterns
+        rx = to_z3(pat, flags)
+        if kind == 'match' and not end_anchored(pat, flags):
+            rx = z3.Concat(rx, z3.Star(z3.AllChar(z3.ReSort(z3.StringSort()))))
+        return z3.InRe(s_term, rx)
 
     # --- str
     def sm_startswith(self, r, args, kw, st, exits, line):
